@@ -9,6 +9,7 @@ pub mod noisekit;
 pub mod c01;
 pub mod c02;
 pub mod c03;
+pub mod c04;
 pub mod c18;
 
 use common::{Ctx, Report};
@@ -18,6 +19,7 @@ pub fn run_property(prop: &str, ctx: &Ctx) -> Option<Report> {
         "C01" => c01::run(ctx),
         "C02" => c02::run(ctx),
         "C03" => c03::run(ctx),
+        "C04" => c04::run(ctx),
         "C18" => c18::run(ctx),
         _ => return None,
     })
